@@ -5,7 +5,7 @@ export OMPI_ALLOW_RUN_AS_ROOT=1 OMPI_ALLOW_RUN_AS_ROOT_CONFIRM=1 OMPI_MCA_rmaps_
 GXX="g++ -std=c++11 -fopenmp -w -I$WT/include -I$WT/_b/include -I/usr/include/eigen3 -I/usr/lib/x86_64-linux-gnu/openmpi/include -I/usr/lib/x86_64-linux-gnu/openmpi/include/openmpi"
 LIBS="-L$WT/_b -lpomerol -lboost_mpi -lboost_serialization -lmpi_cxx -lmpi -Wl,-rpath,$WT/_b"
 rundemo() {
-  if [ -f "$CH/demo.sh" ]; then (cd "$CH" && timeout 600 sh ./demo.sh >/dev/null 2>&1); echo $?;
+  if [ -f "$CH/demo.sh" ]; then (cd "$CH" && timeout 900 bash ./demo.sh >/dev/null 2>&1); echo $?;
   else (cd "$CH" && $GXX demo.cpp -o demo.bin $LIBS >/dev/null 2>&1 && timeout 600 ./demo.bin >/dev/null 2>&1); echo $?; fi
 }
 git -C "$WT" checkout -q -- . ; git -C "$WT" apply "$CH/patch.diff" || { echo "RESULT $CH patch-does-not-apply"; exit 1; }
